@@ -101,6 +101,45 @@ def hasPrefix (s p : String) : Bool := p.toList.isPrefixOf s.toList
 /-- `strings.TrimPrefix` -/
 def trimPrefix (s p : String) : String := if hasPrefix s p then String.ofList (s.toList.drop p.toList.length) else s
 
+/-- Go maps with string keys, as association lists that hold one binding per key -/
+def mapDelete {α} (m : List (String × α)) (k : String) : List (String × α) := m.filter (fun p => p.1 != k)
+/-- `m[k] = v` -/
+def mapSet {α} (m : List (String × α)) (k : String) (v : α) : List (String × α) := (k, v) :: mapDelete m k
+/-- `m[k]` (with its presence) -/
+def mapGet {α} (m : List (String × α)) (k : String) : Option α := (m.find? (fun p => p.1 == k)).map (·.2)
+
+theorem mapGet_mapDelete_self {α} (m : List (String × α)) (k : String) : mapGet (mapDelete m k) k = none := by
+  unfold mapGet mapDelete
+  have : (List.filter (fun p => p.1 != k) m).find? (fun p => p.1 == k) = none := by
+    rw [List.find?_eq_none]; intro p hp; simp at hp; simp [hp.2]
+  simp [this]
+theorem find_filter_other {α} (m : List (String × α)) (k k' : String) (h : k' ≠ k) :
+    (m.filter (fun p => p.1 != k)).find? (fun p => p.1 == k') = m.find? (fun p => p.1 == k') := by
+  induction m with
+  | nil => rfl
+  | cons p ps ih =>
+    by_cases hp : p.1 = k
+    · have h1 : (p.1 != k) = false := by simp [hp]
+      have h2 : (p.1 == k') = false := by
+        rw [hp]; simp; exact fun e => h e.symm
+      rw [List.filter_cons, h1, List.find?_cons, h2]
+      simpa using ih
+    · have h1 : (p.1 != k) = true := by simp [hp]
+      rw [List.filter_cons, h1]
+      simp only [if_true, List.find?_cons]
+      cases (p.1 == k') <;> simp [ih]
+theorem mapGet_mapDelete_other {α} (m : List (String × α)) (k k' : String) (h : k' ≠ k) :
+    mapGet (mapDelete m k) k' = mapGet m k' := by
+  unfold mapGet mapDelete
+  rw [find_filter_other m k k' h]
+theorem mapGet_mapSet_self {α} (m : List (String × α)) (k : String) (v : α) : mapGet (mapSet m k v) k = some v := by
+  simp [mapGet, mapSet]
+theorem mapGet_mapSet_other {α} (m : List (String × α)) (k k' : String) (v : α) (h : k' ≠ k) :
+    mapGet (mapSet m k v) k' = mapGet m k' := by
+  have : mapGet (mapSet m k v) k' = mapGet (mapDelete m k) k' := by
+    simp [mapGet, mapSet, List.find?_cons, Ne.symm h]
+  rw [this, mapGet_mapDelete_other m k k' h]
+
 /-- `*x509.Certificate`: opaque (which key it certifies is the business of the signature layer) -/
 structure Certificate where
   id : Nat
